@@ -12,18 +12,30 @@ P = dict(
               'history shape "unrestored redirections, then a new plugin object": tests also call UT_PTR_SET while no installed, enabled SetPointerPlugin is in the chain '
               '(disabled / removed / never installed / the runner\'s own plugin disabled during a run) - observed but not judged; a new SetPointerPlugin object '
               '(chain operation newPluginObject, or the next runAllTestsMain call) is constructed before the next test that runs under an active plugin, and that test and all later ones are judged as usual '
-              '(violation keys of the first judged test carry the suffix :after-unrestored-redirections-and-a-new-plugin-object); ASan/UBSan build watches the table',
+              '(violation keys of the first judged test carry the suffix :after-unrestored-redirections-and-a-new-plugin-object); '
+              'enabled flags switched WHILE a test runs: the test itself (any statement of setup / body / teardown) or the pre / post action of another recording plugin calls enable() / disable() on an installed plugin '
+              '(recording plugins, the SetPointerPlugin, the runner\'s own plugin). The model only orders the events (pre actions head first, test, post actions tail first) and notes the flag each plugin has when its pre action '
+              'and when its post action is due: a plugin whose flag is the same at both moments is judged as usual (sees both / neither, order as always), a plugin whose flag differs between the two moments is not judged '
+              '(its actions are only counted - the statement does not say which moment counts); pointers are judged when an installed SetPointerPlugin was enabled at every redirection of the test and one is enabled from the first '
+              'to the last post action - in particular a test that switches the installed, disabled SetPointerPlugin on (first statement of setup, or the pre action of a plugin in front of / behind it) and then redirects; '
+              'otherwise the test is executed but unjudged and, if nothing was enabled at post-action time, its entries count as unrestored (new plugin object before the next judged test). '
+              'Keys of such tests carry :set-pointer-plugin-switched-while-the-test-ran (pointers) / :flags-switched-while-the-test-ran (actions); isEnabled() of every plugin is compared with the calls made after such a test; '
+              'ASan/UBSan build watches the table',
     rule='a case is a program: plugin universe (recording plugins, recording/plain SetPointerPlugins, the runner\'s own SetPointerPlugin), executions = (chain operations, one scripted test) '
          'grouped into runs, chain operations applied between runs and between tests of one run; in part of the executions plugin actions (pre, post, both, of one or two plugins) report a failure for the test; '
          'four sections are enumerated completely '
          '(remove-by-name: chains of 1..6 x every enabled mask x every position + absent name; limit: 30..36 redirections x placement x ending x target pattern, followed by a small test and a test filling the table exactly; '
          'failing actions: chains of 1..5 x every enabled mask x every complaining plugin x {pre, post, pre+post, pre with 2 failures + post of the neighbour} x ending {pass, FAIL, CHECK_C in setup}, followed by a plain test; '
          'unrestored-then-new-plugin: facility absent {disabled, never installed, removed} x {1, 3, 32, 34} unrestored redirections x {same plugin replaced by a new object, another new SetPointerPlugin} '
-         'x first judged test {same location, another location + FAIL, none, exactly 32} x location rewritten in between {no, yes} x {between runs, between tests}, and the same through two runAllTestsMain calls with the runner\'s plugin disabled {directly, by name} in the first). '
+         'x first judged test {same location, another location + FAIL, none, exactly 32} x location rewritten in between {no, yes} x {between runs, between tests}, and the same through two runAllTestsMain calls with the runner\'s plugin disabled {directly, by name} in the first; '
+         'flags switched while a test runs: chain H > A > SetPointerPlugin > B > T, switched plugin {A, SetPointerPlugin, B} x switched by {first statement of setup, first of body, last of teardown, pre action of H, pre action of T, post action of H, post action of T} '
+         'x initial flag {enabled, disabled} x switched back {never, later in the test / post action of the same plugin, post action of T} x redirections {none, 3 in the body with one location twice, 4 over setup / body / teardown} x ending {pass, FAIL in body, CHECK_C in setup}, followed by a plain test). '
+         'In the random sections about one test in eight switches flags (recording plugins at random statements / from actions; a disabled SetPointerPlugin switched on; the active one switched off and perhaps on again), and pointer programs disable the SetPointerPlugin between tests and let the next test switch it on itself. '
          'Non-trivial = a test execution that redirects one target >= 2 times (distinct by script: baseline, redirections per phase, failing statements), '
          'or a chain operation (remove / enable / disable, also the runner removing its own plugin) on a plugin at depth >= 2 (distinct by chain names + enabled flags + operation + depth), '
          'or a test execution in which a plugin action reports a failure while actions of other enabled recording plugins are still due after it (distinct by chain + complaining plugins + failures each + ending), '
-         'or the first judged test after a new SetPointerPlugin object was constructed over unrestored entries, when replaying one of those entries would change a location (distinct by chain + locations + script)',
+         'or the first judged test after a new SetPointerPlugin object was constructed over unrestored entries, when replaying one of those entries would change a location (distinct by chain + locations + script), '
+         'or a test during which the enabled flag of an installed plugin changes (distinct by chain + flags + script incl. the switching statements / actions)',
     floor=dict(quick=15000, thorough=300000),
     counter_floor=dict(
         quick=dict(tests_sets_over_32=3000, tests_filling_the_table_exactly_and_passing=2000, repeatedly_redirected_targets_compared=50000,
@@ -38,7 +50,16 @@ P = dict(
                    new_set_pointer_plugin_object_over_unrestored_entries_by_the_command_line_runner=150,
                    tests_judged_under_a_new_plugin_object_after_unrestored_redirections=1000,
                    tests_after_a_new_plugin_object_in_which_a_replay_would_be_visible=1000,
-                   tests_redirecting_a_location_with_a_discarded_unrestored_entry=400, chain_op_new_plugin_object=1500),
+                   tests_redirecting_a_location_with_a_discarded_unrestored_entry=400, chain_op_new_plugin_object=1500,
+                   tests_in_which_the_flag_of_an_installed_plugin_changed_while_the_test_ran=3000,
+                   flag_switches_by_the_test_in_setup=3000, flag_switches_by_the_test_in_body=1500, flag_switches_by_the_test_in_teardown=1500,
+                   flag_switches_by_pre_actions_of_plugins=800, flag_switches_by_post_actions_of_plugins=800,
+                   tests_judged_for_restoration_whose_set_pointer_plugin_was_disabled_when_the_pre_actions_ran=800,
+                   set_pointer_plugin_switched_on_by_the_test_then_judged=700, set_pointer_plugin_switched_on_by_a_plugin_action_then_judged=80,
+                   tests_judged_with_a_repeated_target_and_the_set_pointer_plugin_switched_on_meanwhile=600,
+                   switched_but_settled_recording_plugins_judged_as_enabled=400, switched_but_settled_recording_plugins_judged_as_disabled=400,
+                   unsettled_recording_plugins_enabled_at_pre_disabled_at_post_action_time_unjudged=1000,
+                   unsettled_recording_plugins_disabled_at_pre_enabled_at_post_action_time_unjudged=1000),
         thorough=dict(tests_sets_over_32=60000, tests_filling_the_table_exactly_and_passing=40000, repeatedly_redirected_targets_compared=1000000,
                       remove_pos_deep=60000, chain_op_remove_absent=60000, chain_ops_between_tests_of_one_run=200000,
                       tests_ending_throw=50000, **{'tests_ending_fail-c': 100000},
@@ -50,7 +71,16 @@ P = dict(
                       new_set_pointer_plugin_object_over_unrestored_entries_by_the_command_line_runner=1500,
                       tests_judged_under_a_new_plugin_object_after_unrestored_redirections=10000,
                       tests_after_a_new_plugin_object_in_which_a_replay_would_be_visible=10000,
-                      tests_redirecting_a_location_with_a_discarded_unrestored_entry=4000, chain_op_new_plugin_object=15000),
+                      tests_redirecting_a_location_with_a_discarded_unrestored_entry=4000, chain_op_new_plugin_object=15000,
+                      tests_in_which_the_flag_of_an_installed_plugin_changed_while_the_test_ran=30000,
+                      flag_switches_by_the_test_in_setup=20000, flag_switches_by_the_test_in_body=12000, flag_switches_by_the_test_in_teardown=12000,
+                      flag_switches_by_pre_actions_of_plugins=6000, flag_switches_by_post_actions_of_plugins=6000,
+                      tests_judged_for_restoration_whose_set_pointer_plugin_was_disabled_when_the_pre_actions_ran=6000,
+                      set_pointer_plugin_switched_on_by_the_test_then_judged=5000, set_pointer_plugin_switched_on_by_a_plugin_action_then_judged=500,
+                      tests_judged_with_a_repeated_target_and_the_set_pointer_plugin_switched_on_meanwhile=4000,
+                      switched_but_settled_recording_plugins_judged_as_enabled=3000, switched_but_settled_recording_plugins_judged_as_disabled=3000,
+                      unsettled_recording_plugins_enabled_at_pre_disabled_at_post_action_time_unjudged=8000,
+                      unsettled_recording_plugins_disabled_at_pre_enabled_at_post_action_time_unjudged=8000),
     ),
     assumptions=[
         'plugin actions report failures the way the stock plugins do (TestResult::addFailure with a TestFailure naming the test); actions that throw or leave by longjmp are not generated',
@@ -60,6 +90,10 @@ P = dict(
         'after such unrestored redirections the next test under an active plugin is always preceded by the construction of a NEW SetPointerPlugin object (its constructor empties the table); '
         're-activating an OLD plugin object over unrestored entries replays them in the unchanged code too - that history is outside the statement and never generated (runtime guard counter tests_under_an_old_plugin_object_over_unrestored_entries_unjudged stays 0)',
         'a plugin object is replaced by a new one (newPluginObject) only while it is not installed and never while a test is running',
+        'enabled flags switched while a test runs: the statement does not say whether "disabled plugins see neither" refers to the flag when the pre action or when the post action is due; a plugin whose flag differs between '
+        'those two moments is therefore not judged (counters unsettled_*), everything else is; pointers are judged only when an installed SetPointerPlugin was enabled at every redirection of the test and from the first to the last post action; '
+        'a plugin whose actions switch flags is never itself switched in that test (runtime guard counter tests_unjudged_a_plugin_that_switches_flags_was_itself_switched stays 0); '
+        'chain operations (install / remove) are still only issued between tests, never from inside a test or an action; an old SetPointerPlugin object is never switched on over unrestored entries',
         'plugin names are unique within a chain and never "null" (the name of the internal terminator plugin: removePluginByName("null") detaches the terminator - observed, outside the statement)',
         'a plugin object is installed at most once at a time; runs through the command line runner pass -e (with the default "rethrow unexpected exceptions" a throwing test ends the whole run before any post action)',
         'ignored tests, filters and separate-process mode are not generated (the statement quantifies over tests that run in-process)',
